@@ -51,7 +51,7 @@ def extra_premises(name):
     if L.quantified or L.identity or True:
         out += ['Fo', 'NFm', 'Gs']
     if L.quantified:
-        out += ['SxHx', 'VxNFx', 'SxNGx']
+        out += ['SxOx', 'VxNFx', 'SxNGx']
     if L.identity:
         out += ['Ims', 'NIno']
     return out
@@ -127,6 +127,9 @@ def _task(task):
         # renaming
         if base in ('valid', 'invalid_clean'):
             for label, mp in (ren if tier != 'quick' else ren[idx % 2:: 2]):
+                # injective on the whole argument: a target symbol must not already occur (unless it is renamed away itself)
+                if any(t[0] in astr and t[0] not in mp for t in mp.values()):
+                    continue
                 a2 = translate(astr, mp)
                 if a2 == astr:
                     continue
